@@ -92,6 +92,40 @@ class C15Top(Serializable):
     names: Set[str] = None
 
 
+class C15Vec(Serializable):
+    """a nested Serializable with its OWN JSON form (a list instead of an object), overridden consistently"""
+    x: int = 0
+    y: int = 0
+
+    def toJson(self):
+        return [self.x, self.y]
+
+    @classmethod
+    def fromJson(cls, record):
+        return cls(x=record[0], y=record[1])
+
+
+class C15Label(Serializable):
+    """... and one written as a string"""
+    text: str = ""
+
+    def toJson(self):
+        return "L:" + self.text
+
+    @classmethod
+    def fromJson(cls, record):
+        return cls(text=record[2:])
+
+
+class C15Shapes(Serializable):
+    pos: C15Vec = None
+    label: C15Label = None
+    path: List[C15Vec] = None
+    anchors: Dict[str, C15Vec] = None
+    box: Tuple[C15Vec, C15Label] = None
+    inner: C15Inner = None
+
+
 class C15Lobby(Serializable):
     """container fields whose default in the class definition is a MUTABLE object, not None (as in the library's own demo:
     ``rooms: Dict[int, str] = {}``); decoded many times in one process"""
@@ -294,6 +328,12 @@ def hierarchy_cases():
     d2 = C15Derived2(pair=(7, "x"), names={"a", "é"})
     yield [C15Base(uid=11, label="é"), d, d2, C15Base(uid=-1, label=""), C15Derived(), C15Derived2(pair=None, names=set())], "class hierarchy, parent used first", ("hierarchy", "parent-first")
     yield [C15DerivedB(score=5, items=[3]), C15BaseB(uid=9), C15DerivedB(score=0, items=None)], "class hierarchy, child used first", ("hierarchy", "child-first")
+    # nested classes that override toJson / fromJson with a non-object JSON form, in every typed position
+    v, w_, lb = C15Vec(x=3, y=-4), C15Vec(x=0, y=2 ** 40), C15Label(text="é x")
+    yield [C15Shapes(pos=v, label=lb, path=[v, w_], anchors={"hand": w_, "": v}, box=(w_, lb), inner=C15Inner(n=1, s="s")),
+           C15Shapes(pos=w_, label=C15Label(text=""), path=[], anchors={}, box=None, inner=C15Inner()),
+           C15Shapes(pos=C15Vec(), label=lb, path=None, anchors=None, box=(v, C15Label(text="L:")), inner=C15Inner(n=-1, s=""))], "nested class with its own JSON form", ("custom-json", "all positions")
+    # (None is only a value of CONTAINER fields: a nested Serializable field always holds an instance)
 
 
 # ---- sequences of decodes of ONE class in one process ---------------------------------------------------------------------
